@@ -4,19 +4,20 @@ import BqVerif.Model.QasmElab
 Same statements, same operations as `QasmElab` — but written from the language definition,
 not from the code:
 
-* an expression is read with its parentheses (`flattenSpec`), all six functions exist,
-  formal parameters are BOUND in the tree (`Env`), never spliced into text;
-* `name[i]` requires `i < size name`;
-* any list of registers / qubits is read element-wise;
+* the value of an expression is the value of its own token string (`flatten` of the Lark tree
+  IS that string, `C17_reader_text`) read by the precedence grammar (`C17_precedence`), with
+  all six functions; formal parameters are BOUND in the tree (`Env`), never spliced into text;
+* `name[i]` requires `i < size name`; any list of registers / qubits is read element-wise;
 * `reset name;` resets the register that is named; `measure name[i] -> c[j];` records the
   circuit qubit;
-* a user gate body keeps its parameter expressions as trees; a call instantiates the body under
-  the binding formals ↦ actual values, recursively;
-* `if (…) …` is outside the subset: rejected (`specDecodeToks`).
+* a user gate body keeps its parameter expressions as trees (an expression without formals must
+  have a value when the gate is defined); a call instantiates the body under the binding
+  formals ↦ actual values, recursively;
+* `if (…) …` is outside the subset (the parser model rejects it).
 
 The run compares this elaboration with the independent Python reference (`c17_gen.Ref`) on every
-generated program; `Props/C17.lean` proves that the reader (`QasmElab`) agrees with it on
-programs that avoid the constructs the reader gets wrong. -/
+generated program; `Props/C17.lean` proves that the reader (`QasmElab`) computes it for EVERY
+program that has a meaning (`C17_program`). -/
 namespace BqVerif.Qasm
 
 variable {V : Type}
@@ -51,9 +52,9 @@ def PE.evalEnvSpec (A : Arith V) (σ : Env V) : PE V → Option V
     | _, _ => none
   | .call f e => (e.evalEnvSpec A σ).map (A.fn f)
 
-/-- the value of an expression (as Lark parsed it) under a binding: parentheses respected -/
+/-- the value of an expression (as Lark parsed it) under a binding -/
 def exprValue (A : Arith V) (σ : Env V) (q : QE V) : Option V :=
-  (pyParse (flattenSpec A q)).bind (PE.evalEnvSpec A σ)
+  (pyParse (flatten q)).bind (PE.evalEnvSpec A σ)
 
 /-! ## registers -/
 
@@ -153,8 +154,14 @@ def elabCallS (A : Arith V) (s : SSt V) : GCall V → Option (Op V)
       if la == lb then none else mkPrim A d (la ++ lb) []
     | _, _, _, _, _ => none
 
-def elabBodyCallS (s : SSt V) (qubits : List String) : GCall V → Option (SBody V)
+/-- an expression of a gate body that mentions no formal must have a value -/
+def closedOk (A : Arith V) (formals : List String) (q : QE V) : Bool :=
+  hasParam formals q || (exprValue A noEnv q).isSome
+
+def elabBodyCallS (A : Arith V) (s : SSt V) (formals qubits : List String) :
+    GCall V → Option (SBody V)
   | .gate name params args =>
+    if !params.all (closedOk A formals) then none else
     if args.any (·.idx.isSome) then none else
     (match args.mapM (fun a => idxOf? qubits a.name) with
      | some loc =>
@@ -164,6 +171,7 @@ def elabBodyCallS (s : SSt V) (qubits : List String) : GCall V → Option (SBody
         | none => none)
      | none => none)
   | .u params a =>
+    if !params.all (closedOk A formals) then none else
     match idxOf? qubits a.name, lookupBuiltin s.table "U" with
     | some q, some b => some (.mk (.builtin b) [q] params)
     | _, _ => none
@@ -172,16 +180,17 @@ def elabBodyCallS (s : SSt V) (qubits : List String) : GCall V → Option (SBody
     | some x, some y, some d => if x == y then none else some (.mk (.builtin d) [x, y] [])
     | _, _, _ => none
 
-def elabBodyS (s : SSt V) (qubits : List String) : List (BStmt V) → Option (List (SBody V))
+def elabBodyS (A : Arith V) (s : SSt V) (formals qubits : List String) :
+    List (BStmt V) → Option (List (SBody V))
   | [] => some []
-  | .barrier :: rest => elabBodyS s qubits rest
+  | .barrier :: rest => elabBodyS A s formals qubits rest
   | .call c :: rest =>
-    match elabBodyCallS s qubits c with
-    | some b => (elabBodyS s qubits rest).map (b :: ·)
+    match elabBodyCallS A s formals qubits c with
+    | some b => (elabBodyS A s formals qubits rest).map (b :: ·)
     | none => none
 
-/-- `measure a -> c`: whole registers of equal size, or one qubit to one bit; the recorded
-key is the circuit qubit -/
+/-- `measure a -> c`: whole registers of equal size, or one qubit to one bit of the register
+(`j` below its size); the recorded key is the circuit qubit -/
 def elabMeasureS (s : SSt V) (q c : Arg) : Option (Op V) :=
   match argIndicesS s.qregs q with
   | none => none
@@ -192,7 +201,8 @@ def elabMeasureS (s : SSt V) (q c : Arg) : Option (Op V) :=
        | none, none =>
          if qsz != csz then none else
          some (.measure loc ((List.range qsz).map fun i => (loc.getD i 0, c.name, i)))
-       | some _, some j => some (.measure loc [(loc.getD 0 0, c.name, j)])
+       | some _, some j =>
+         if j < csz then some (.measure loc [(loc.getD 0 0, c.name, j)]) else none
        | _, _ => none)
     | _, _ => none
 
@@ -206,7 +216,7 @@ def elabStmtS (A : Arith V) (s : SSt V) : Stmt V → Option (SSt V)
   | .qreg n k => if s.qregs.any (·.1 == n) then none else some { s with qregs := s.qregs ++ [(n, k)] }
   | .creg n k => if s.cregs.any (·.1 == n) then none else some { s with cregs := s.cregs ++ [(n, k)] }
   | .gatedecl name ps qs body =>
-    (elabBodyS s qs body).map fun b =>
+    (elabBodyS A s ps qs body).map fun b =>
       { s with customs := (name, .custom name ps qs.length b) :: s.customs }
   | .call c => (elabCallS A s c).map fun op => { s with ops := op :: s.ops }
   | .measure q c => (elabMeasureS s q c).map fun op => { s with ops := op :: s.ops }
@@ -227,10 +237,9 @@ def finishS (s : SSt V) : Option (Decoded V) :=
   else if ops.all (fun o => !o.loc.isEmpty && o.loc.all (· < n)) then some ⟨n, s.cregs, ops⟩
   else none
 
-/-- the meaning of a program (token string) of the subset; `if` is not in the subset -/
+/-- the meaning of a program (token string) of the subset -/
 def specDecodeToks (A : Arith V) (table : List BuiltinDef) (ts : List Tok) : Option (Decoded V) :=
-  if ts.contains (.kw "if") then none
-  else (parseProgram ts).bind fun ss => (elabStmtsS A { table := table } ss).bind finishS
+  (parseProgram ts).bind fun ss => (elabStmtsS A { table := table } ss).bind finishS
 
 def specDecode (A : Arith V) (table : List BuiltinDef) (src : String) : Option (Decoded V) :=
   (lex src).bind (specDecodeToks A table)
